@@ -179,7 +179,14 @@ def apply(project, label, mj):
             f['type'] = ftype
             f['attrs'] = {}
         for k, v in attrs.items():
-            if v is None or v is False:
+            if k == 'db_index' and f['type'] in ('FK', 'O2O'):
+                # relations are indexed by default: False is the explicit
+                # value, True the default
+                if v:
+                    f['attrs'].pop(k, None)
+                else:
+                    f['attrs'][k] = False
+            elif v is None or v is False:
                 f['attrs'].pop(k, None)
             else:
                 f['attrs'][k] = v
